@@ -105,7 +105,14 @@ class Gen(object):
 
     roomy = False   # candidate profiles: inventories that usually have room
 
-    def gen_inventory(self, tight=True):
+    def gen_inventory(self, tight=True, v=None):
+        if v is not None and M.ver(v) >= (1, 26) and self.chance(0.06):
+            # legal from 1.26: an inventory with no capacity at all
+            t = self.rng.randint(1, 6)
+            return self.pick([{'total': t, 'reserved': t},
+                              {'total': t, 'allocation_ratio': 0.0},
+                              {'total': t, 'reserved': 0,
+                               'allocation_ratio': 0.0, 'max_unit': t}])
         total = self.rng.randint(1, self.max_total)
         if self.roomy:
             total = self.rng.randint(4, max(8, self.max_total * 2))
@@ -146,6 +153,9 @@ class Gen(object):
         """reserved > total (always refused) or reserved == total (refused
         below 1.26 only)."""
         t = self.rng.randint(1, 6)
+        if self.chance(0.3):
+            # allocation_ratio 0 is schema-legal: capacity 0
+            return {'total': t, 'allocation_ratio': 0.0}
         return {'total': t, 'reserved': t + self.pick([0, 0, 1])}
 
     # -- op constructors -------------------------------------------------------
@@ -336,7 +346,7 @@ class Gen(object):
         for rc in self.rng.sample(self.rcs, self.rng.randint(0, min(
                 3, len(self.rcs)))):
             if m.class_exists(rc):
-                invs[rc] = self.gen_inventory()
+                invs[rc] = self.gen_inventory(v=v)
         # keep classes that are in use most of the time
         for (p, rc) in m.inventories:
             if p == u and m.used(u, rc) > 0 and rc not in invs and \
@@ -380,7 +390,8 @@ class Gen(object):
             return None
         u = self.pick(ex)
         rc = self.pick(self.rcs)
-        b = self.gen_inventory()
+        v_post = self.ver()
+        b = self.gen_inventory(v=v_post)
         b['resource_class'] = rc
         d = None
         if not m.class_exists(rc):
@@ -392,14 +403,15 @@ class Gen(object):
             b = self.bad_capacity()
             b['resource_class'] = rc
         return {'m': 'POST', 'p': '/resource_providers/%s/inventories' % u,
-                'v': self.ver(), 'b': b, 'defect': d}
+                'v': v_post, 'b': b, 'defect': d}
 
     def g_inv_put_one(self, m):
         have = sorted(k for k in m.inventories if k[0] in self.existing_p(m))
         if not have:
             return None
         u, rc = self.pick(have)
-        b = self.gen_inventory()
+        v_one = self.ver()
+        b = self.gen_inventory(v=v_one)
         b['resource_provider_generation'] = self.gen_for(m, u)
         d = None
         if self.chance(self.invalid_rate):
@@ -416,7 +428,7 @@ class Gen(object):
                 b = self.bad_capacity()
                 b['resource_provider_generation'] = self.gen_for(m, u)
         return {'m': 'PUT', 'p': '/resource_providers/%s/inventories/%s' %
-                (u, rc), 'v': self.ver(), 'b': b, 'defect': d}
+                (u, rc), 'v': v_one, 'b': b, 'defect': d}
 
     def g_inv_delete_one(self, m):
         have = sorted(k for k in m.inventories if k[0] in self.existing_p(m))
@@ -648,6 +660,25 @@ class Gen(object):
                 return False
             rp, rc = self.pick(cands)
             alloc.setdefault(rp, {})[rc] = 1
+        elif d == 'zero_room':
+            # an inventory that has no room at all (full, or capacity 0
+            # because reserved == total or allocation_ratio == 0): the
+            # smallest amount the unit constraints allow must be refused
+            cands = []
+            for (rp, rc), inv in sorted(m.inventories.items()):
+                if rp not in m.providers or rc in alloc.get(rp, {}):
+                    continue
+                if self._room(m, rp, rc, excluding) > 0:
+                    continue
+                n = inv['min_unit']
+                while n % inv['step_size']:
+                    n += 1
+                if n <= inv['max_unit']:
+                    cands.append((rp, rc, n))
+            if not cands:
+                return False
+            rp, rc, n = self.pick(cands)
+            alloc.setdefault(rp, {})[rc] = n
         elif d == 'unit':
             cands = []
             for rp, res in alloc.items():
@@ -703,7 +734,7 @@ class Gen(object):
         cg = 'right'
         if self.chance(self.invalid_rate):
             choices = ['unknown_rp', 'unknown_rc', 'no_inventory', 'unit',
-                       'over']
+                       'over', 'zero_room']
             if vv >= (1, 28):
                 choices += ['stale_cg', 'stale_cg']
             d = self.pick(choices)
@@ -726,10 +757,39 @@ class Gen(object):
         bad_at = self.rng.randrange(n) if self.chance(
             self.invalid_rate) else None
         d = None
+        # "same pair" mode: every consumer of the request lands on ONE
+        # (provider, class); with the 'over' defect the request sits exactly
+        # one unit over the edge, whichever entry carries the excess
+        same_pair = None
+        if n >= 2 and self.chance(0.35):
+            cands = [k for k in sorted(m.inventories)
+                     if k[0] in m.providers and
+                     self._room(m, k[0], k[1], excluding) >= n]
+            if cands:
+                same_pair = self.pick(cands)
         for i, c in enumerate(cs):
-            clear = self.chance(0.15)
+            clear = self.chance(0.15) and same_pair is None
             if clear:
                 alloc = {}
+            elif same_pair is not None:
+                rp_, rc_ = same_pair
+                room = self._room(m, rp_, rc_, excluding, None, extra)
+                left = n - i - 1
+                inv_ = m.inventories[same_pair]
+                amt = None
+                for cand_n in range(1, max(1, room - left) + 1):
+                    if cand_n >= inv_['min_unit'] and \
+                            cand_n % inv_['step_size'] == 0 and \
+                            cand_n <= inv_['max_unit']:
+                        amt = cand_n
+                        if self.chance(0.5):
+                            break
+                if amt is None or room < amt:
+                    alloc = {}
+                    clear = True
+                else:
+                    alloc = {rp_: {rc_: amt}}
+                    extra[same_pair] = extra.get(same_pair, 0) + amt
             else:
                 alloc, extra = self._valid_alloc(m, excluding, extra=extra)
                 if not alloc:
@@ -737,7 +797,7 @@ class Gen(object):
             cg = 'right'
             if bad_at == i:
                 choices = ['unknown_rp', 'unknown_rc', 'no_inventory',
-                           'unit', 'over']
+                           'unit', 'over', 'zero_room']
                 if vv >= (1, 28):
                     choices += ['stale_cg', 'stale_cg']
                 d = self.pick(choices)
@@ -788,16 +848,27 @@ class Gen(object):
         rps = self.rng.sample(ex, k)
         invs = {}
         new_inv = dict(m.inventories)
+        # "drain" mode: a provider gives up its whole inventory (the classic
+        # move-everything-away reshape); its consumers are cleared or
+        # re-placed elsewhere
+        drain = set()
+        if self.chance(0.3):
+            with_inv = [rp for rp in rps
+                        if any(p == rp for (p, _rc) in m.inventories)]
+            if with_inv:
+                drain.add(self.pick(with_inv))
         for rp in rps:
             cur = {rc: dict(i) for (p, rc), i in m.inventories.items()
                    if p == rp}
+            if rp in drain:
+                cur = {}
             # move / drop / add classes
             for rc in list(cur):
                 if self.chance(0.25):
                     del cur[rc]
             for rc in self.rcs:
-                if rc not in cur and m.class_exists(rc) and \
-                        self.chance(0.3):
+                if rp not in drain and rc not in cur and \
+                        m.class_exists(rc) and self.chance(0.3):
                     cur[rc] = M.Model._inv_full(m, self.gen_inventory())
             for key in [key for key in new_inv if key[0] == rp]:
                 del new_inv[key]
